@@ -30,6 +30,7 @@ type vhCoordinator struct {
 	syncErr      error
 	parts        []Partition
 	filterTopics bool
+	partsErr     error
 	joins        int
 	joinOutcome  func(call int) (joinGroupResponse, error) // overrides joinResp/joinErr when set
 	joinMembers  []string                                  // member id carried by each joinGroup request
@@ -87,6 +88,9 @@ func (c *vhCoordinator) offsetCommit(r offsetCommitRequestV2) (offsetCommitRespo
 }
 func (c *vhCoordinator) readPartitions(topics ...string) ([]Partition, error) {
 	c.calls = append(c.calls, "readPartitions")
+	if c.partsErr != nil {
+		return nil, c.partsErr
+	}
 	if !c.filterTopics {
 		return c.parts, nil
 	}
